@@ -23,7 +23,38 @@ func envInt(name string, def int) int {
 	return def
 }
 
+// coldStart is the very first thing the process does with the library: sixteen goroutines enter
+// the public entry points at once with fixed arguments, before anything - the case generators
+// included - has run library code sequentially, so that package-level values that are filled in
+// lazily (a cached default, a memo) are first touched by racing goroutines.
+func coldStart() {
+	var wg sync.WaitGroup
+	for w := 0; w < 16; w++ {
+		wg.Add(1)
+		go func(w int) {
+			defer wg.Done()
+			o := rosed.Options{TableCharSet: "#", LineSeparator: "\r\n", PreserveParagraphs: w%2 == 0, TableBorders: true, TableHeaders: w%3 == 0}
+			_ = o.WithDefaults()
+			_ = rosed.Options{}.WithDefaults()
+			e := rosed.Edit("one two  three\r\n\r\nfour e\u0301 five\r\n").WithOptions(o)
+			_ = e.Wrap(6).String()
+			_ = e.Justify(12).String()
+			_ = e.Align(rosed.Center, 9).String()
+			_ = e.Indent(1).String()
+			_ = e.CollapseSpace().String()
+			_ = e.InsertTable(0, [][]string{{"a", "b"}, {"c"}}, 12).String()
+			_ = e.InsertTwoColumns(0, "left text", "right text here", 2, 20, 0.4).String()
+			_ = e.InsertDefinitionsTable(0, [][2]string{{"t", "def of t"}}, 24).String()
+			_ = e.Chars(1, -1).Insert(1, "x").String()
+			_ = e.Lines(0, 1).Overtype(0, "y").Commit().String()
+			_ = e.CharCount() + e.LineCount()
+		}(w)
+	}
+	wg.Wait()
+}
+
 func TestRace(t *testing.T) {
+	coldStart()
 	seed := int64(envInt("VERIF_SEED", 1))
 	n := envInt("VERIF_RACE_CASES", 300)
 	g := &G{r: rand.New(rand.NewSource(seed*31 + 7))}
